@@ -23,6 +23,7 @@ structure S where
   announced : Option String := none            -- id announced by NextTask and not yet dispatched
   postponed : List String := []                -- ids whose scheduled time was changed while announced
   quiescing : Bool := false
+  noModel : Bool := false                      -- cron configuration: monitors only
   nontrivial : Bool := false
   deriving Inhabited
 
@@ -75,9 +76,40 @@ def schedCall (s : S) (a : SAct) (observed : String) : S × List String :=
     else if exp == observed || (exp == "ok" && observed == "") then [] else [s!"DIFF sched model={exp} impl={observed}"]
   ({ s with w := w', ops := s.ops + 1 }, d)
 
+/-- cron configuration (Scheduler over VolatileTaskRepo over a real CronStore): no model is replayed,
+only the monitors run on the implementation's own lines. -/
+def stepLineCron (s : S) (req : List String) : S × List String :=
+  match req with
+  | "work" :: id :: now :: rest =>
+    match decStr id, decTime now, decTask rest with
+    | some id, some now, some (t, _) =>
+      let early := if t.scheduledAt ≤ now then [] else
+        tagged s "C03" s!"(cron) work function of {id} started at {now}, the occurrence handed to it is scheduled at {t.scheduledAt}"
+      let twice := if s.started.contains id then tagged s "C04" s!"(cron) occurrence {id} started a second time" else []
+      let st := if t.state == .dispatched then [] else
+        tagged s "C04" s!"(cron) occurrence {id} started while recorded as {t.state.name}, not dispatched"
+      ({ s with started := s.started ++ [id], nontrivial := true, ops := s.ops + 1 }, early ++ twice ++ st)
+    | _, _, _ => (s, ["DIFF parse bad work line"])
+  | ["sel", "result", id] =>
+    match decStr id with
+    | some id =>
+      let dup := if s.reportedIds.contains id then tagged s "C06" s!"(cron) completion of {id} reported twice" else []
+      ({ s with reportedIds := s.reportedIds ++ [id] }, dup)
+    | none => (s, [])
+  | ["finalcron", now, head] =>
+    match decTime now, decOptTime head with
+    | some now, some (some h) =>
+      (s, if h ≤ now then tagged s "C05" s!"(cron) driver is quiescent at {now} but the head occurrence at {h} is due and not dispatched" else [])
+    | _, _ => (s, [])
+  | "q" :: _ :: f :: _ => ({ s with hadFault := s.hadFault || f == "fb" || f == "fa", ops := s.ops + 1 }, [])
+  | ["cx"] => ({ s with hadFault := true }, [])
+  | _ => (s, [])
+
 def stepLine (s : S) (req resp : List String) : S × List String :=
   let obs := " ".intercalate resp
+  if s.noModel && req.head? != some "new" then stepLineCron s req else
   match req with
+  | ["new", "schedcron", _, _] => ({ ops := s.ops, noModel := true }, [])
   | ["new", _, t0, _] => ({ ops := s.ops, w := { obs := { clock := { now := (decTime t0).getD 0 } } } }, [])
   | ["start"] => ({ s with w := { s.w with obs := s.w.obs.startTimer none } }, [])
   | ["quiesce"] => ({ s with quiescing := true }, [])
